@@ -667,6 +667,15 @@ def rule_polarity(chk, idx, scoped):
                                   'elements of the pair returned by generate_dates are used as %s' % sorted(set(uses)), n.lineno)
                         chk.consulted(mod.path)
                         continue
+                    if isinstance(t, ast.Tuple) and len(t.elts) == 2 and all(isinstance(e, ast.Attribute) for e in t.elts):
+                        # unpacked straight into <x>.future_value, <x>.past_value
+                        attrs = [e.attr for e in t.elts]
+                        chk.judge(attrs == ['future_value', 'past_value'], rw, mod.path, construct,
+                                  'generate_dates()[0] -> future_value, [1] -> past_value',
+                                  'the pair returned by generate_dates is unpacked into (%s), not (future_value, past_value)'
+                                  % ', '.join(attrs), n.lineno)
+                        chk.consulted(mod.path)
+                        continue
                     if not (isinstance(t, ast.Tuple) and len(t.elts) == 2 and all(isinstance(e, ast.Name) for e in t.elts)):
                         raise AnalysisError('%s:%d generate_dates result not unpacked into two names' % (rel(mod.path), n.lineno))
                     a, b = t.elts[0].id, t.elts[1].id
